@@ -14,7 +14,7 @@ from . import c04
 LEVEL = 'exploration'
 TECHNIQUE = "runtime monitoring of the client's writes: strict independent frame decoder and reference zlib peer on every API call"
 BUDGET_S = {'quick': 30, 'thorough': 200}
-REQUIRED = {'all': ['oracle.accepted_calls_decoded', 'oracle.rejected_calls_checked', 'oracle.rsv1_frames_inflated',
+REQUIRED = {'all': ['oracle.transport_fault_calls', 'oracle.accepted_calls_decoded', 'oracle.rejected_calls_checked', 'oracle.rsv1_frames_inflated',
                     'oracle.mask_key_sweep_calls']}
 RULE = ('API calls (send_text/binary/json/ping/pong, close) made on a Ready simulated connection through the '
         'real WebSocket -> session.send -> Frame.build -> mask -> write path; the bytes written by each call '
@@ -186,6 +186,15 @@ def cases(tier, seed, i, n):
                             else:
                                 calls.append(dict(name='send_json', kw=obj))
                     yield dict(kind='hist', mode=mode, mask=mask, calls=calls)
+        # (1b) the socket write of the k-th call is interrupted / fails, possibly after a partial write:
+        #      the call must then raise (never return normally having written something else than one frame)
+        for k in range(1, 6):
+            for fk in ('eintr-partial', 'eagain-partial', 'reset', 'timeout', 'reset-braces', 'runtime'):
+                for mode in modes[:2]:
+                    calls = [dict(name='send_binary', args=[bytes([65 + j]) * n]) for j, n in enumerate((10, 0, 300, 70000, 5, 126))]
+                    calls.insert(2, dict(name='send_text', args=['text ' * 7]))
+                    calls.insert(4, dict(name='send_ping', args=[b'pp']))
+                    yield dict(kind='hist', mode=mode, mask=None, calls=calls, faults=[['sendall', k, fk]])
         # (2) lane sweep: all 256 byte values at every lane offset, every mask
         for mask in MASKS:
             for mode in modes[:2]:
@@ -270,7 +279,7 @@ def run_case(case, acc):
     if mask is not None:
         _env.HOOKS['urandom4'] = lambda: mask      # every 4-byte os.urandom() request = a masking key
     try:
-        w = H.World(H.hs_server([], hs))
+        w = H.World(H.hs_server([], hs), faults={(f[0], f[1]): f[2] for f in case.get('faults', ())})
         run = H.drive(w, ws_kwargs=dict(compress=True) if z else None, connect_kwargs=dict(ping_rate=0), policy=policy)
     finally:
         _env.HOOKS['urandom4'] = saved
@@ -295,7 +304,7 @@ def judge_call(case, rec, acc, z, peer, mask):
     call = rec['call']
     name = call['name']
     argclass, op, payload = expectation(call)
-    wrote = b''.join(e[5] if e[0] == 'sendall' else e[5][1] for e in rec['wrote'])
+    wrote = rec['wire']
     key = None
     detail = dict(call=call, ok=rec['ok'], exc=rec['exc'], wrote_len=len(wrote), wrote_head=wrote[:24])
     outcome = 'accepted' if rec['ok'] else 'rejected'
@@ -353,7 +362,12 @@ def judge_call(case, rec, acc, z, peer, mask):
         et = rec['exc_type']
         arg_exc = issubclass(et, (TypeError, ValueError))
         state_exc = issubclass(et, lerrors.WebSocketError)
-        if wrote:
+        if rec.get('faulted'):
+            # an injected transport fault: the call must fail with a WebSocketError (partial bytes may be on the wire)
+            acc.count2('oracle', 'transport_fault_calls')
+            if not state_exc:
+                key = 'wrong-exception-type:%s:%s' % (name, et.__name__)
+        elif wrote:
             key = 'rejected-call-wrote-bytes'
         elif argclass == ARG_OK:
             key = 'sendable-call-rejected:' + name
